@@ -101,6 +101,12 @@ func c19GenDoc(rng *rand.Rand) *c19Doc {
 		if present() == 1 {
 			s["ignore"] = []string{`\.tmp$`, `^skip/`}[:1+rng.Intn(2)]
 		}
+		switch present() {
+		case 1:
+			s["rename"] = []map[string]string{{"from": `^raw/(.*)$`, "to": "ingest/$1"}, {"from": `\.tmp$`, "to": ".dat"}}[:1+rng.Intn(2)]
+		case 2:
+			s["rename"] = []map[string]string{} // explicitly no renaming rules for this source
+		}
 		if i == 0 || rng.Intn(2) == 0 {
 			ntag := rng.Intn(5)
 			var tags []map[string]any
@@ -195,6 +201,14 @@ func c19Reference(doc *c19Doc) []c19Eff {
 				e.Src[k] = strings.Join(v.([]string), "|")
 			}
 		}
+		e.Src["rename"] = "unset"
+		if v, ok := s["rename"]; ok {
+			var rs []string
+			for _, r := range v.([]map[string]string) {
+				rs = append(rs, r["from"]+">"+r["to"])
+			}
+			e.Src["rename"] = strings.Join(rs, "|") // "" = an explicitly empty list
+		}
 		if t, ok := s["target"].(map[string]any); ok {
 			for _, k := range []string{"name", "http-host", "key", "http-path-prefix"} {
 				e.Src["target."+k] = ""
@@ -231,6 +245,9 @@ func c19Reference(doc *c19Doc) []c19Eff {
 				}
 				if (k == "stat-payload" || k == "include-hidden") && cur == "false" {
 					zero = false // an explicit false is never overridden
+				}
+				if k == "rename" {
+					zero = cur == "unset" // an explicitly empty list is a given value
 				}
 				if strings.HasPrefix(k, "target.") {
 					continue
@@ -333,6 +350,14 @@ func c19Actual(conf *sts.ClientConf) []c19Eff {
 		}
 		e.Src["include"] = strings.Join(inc, "|")
 		e.Src["ignore"] = strings.Join(ign, "|")
+		e.Src["rename"] = "unset"
+		if s.Rename != nil {
+			var rs []string
+			for _, r := range s.Rename {
+				rs = append(rs, r.Pattern.String()+">"+r.Template)
+			}
+			e.Src["rename"] = strings.Join(rs, "|")
+		}
 		if s.Target != nil {
 			e.Src["target"] = "set"
 			e.Src["target.name"] = s.Target.Name
@@ -365,6 +390,9 @@ func c19Actual(conf *sts.ClientConf) []c19Eff {
 
 // compare reference (tri-state strings) with actual (plain values)
 func c19Same(k, ref, act string) bool {
+	if k == "rename" {
+		return ref == act
+	}
 	switch ref {
 	case "unset":
 		return act == "false"
